@@ -111,8 +111,8 @@ case("X4_stateful_instance_per_sample", "WASM keys closure state by address: an 
      prog([fun(1, [], add(SELF, L(1))), fun(2, [(3, Fn([], F), None)], app(3))], [app(2, V(1))]), finding="X4")
 case("X6_global_scope_stateful_call", "a stateful capture-free lambda applied at top level writes its state into the cells of dsp (reference 0,-1,-1)",
      prog([glet(1, app(lam([2], add(SELF, L(1))), L(0)))], [('mem', L(-1))]), finding="X6")
-case("W5_capture_pattern_variable", "WASM: a closure that captures a pattern-bound local reads garbage (reference 3)",
-     prog([], [let(pt(1, 2), tup(L(1), L(2)), let(3, lam([], add(V(1), V(2))), app(3)))]), finding="W5")
+case("fixed_W5_capture_pattern_variable", "a closure captures a pattern-bound local (WASM read the bits of a pointer before /repo 5e67a0a)",
+     prog([], [let(pt(1, 2), tup(L(1), L(2)), let(3, lam([], add(V(1), V(2))), app(3)))]))
 case("PROJ_if_condition", "WASM (C01/F46 and relatives): a projection used directly as an if condition (reference 1)",
      prog([], [let(1, L(0), ('if', ('fld', ('rec', [(4, V(1)), (7, L(-1))]), 7), L(0), L(1)))]), finding="PROJ")
 case("W7_closure_from_global_pattern", "WASM: a stateful closure bound by a top-level tuple pattern runs on the state of dsp (reference 0,0,1,1)",
